@@ -30,7 +30,7 @@ func genC13(mode string) func(t *rapid.T) c13Case {
 		if Thorough() {
 			maxN = 16
 		}
-		n := rapid.IntRange(2, maxN).Draw(t, "clients")
+		n := rapid.IntRange(3, maxN).Draw(t, "clients")
 		// at least two valid requests with their own histories (distinct hashes) and one failing one
 		for i := 0; i < n; i++ {
 			cl := c13Client{OffsetMs: rapid.IntRange(0, 30).Draw(t, "offset")}
